@@ -219,6 +219,7 @@ type Result struct {
 	RangeExecs int    `json:"range_execs"`
 	DumpBefore string `json:"dump_before,omitempty"`
 	DumpAfter  string `json:"dump_after,omitempty"`
+	DumpDiff   []string `json:"dump_diff,omitempty"`
 	WallNs     int64  `json:"wall_ns"`
 
 	Died     bool   `json:"died,omitempty"`     // worker process died while running this case
